@@ -70,7 +70,7 @@ class Runner(c13.Runner):
 
 # functions whose documented purpose is to build a value around their arguments (or to return a function closing over them)
 STORES_ARGUMENT = {"new", "object", "map", "set", "list", "zip", "zip_map", "pairs", "enumerate", "if_null", "if_empty", "if_null_or_empty", "identity",
-                   "curry", "compose", "partial", "put", "append", "append_all", "insert_at", "bind_native", "add"}
+                   "curry", "compose", "partial", "put", "append", "append_all", "insert_at", "bind_native", "add", "substitute"}
 
 
 def nested_holds(result, args_c, depth=0, seen=None):
@@ -414,6 +414,8 @@ def run(ctx):
     scratch = c13.setup_scratch()
     jobs = []
     total = 0
+    CONTAINER_IDX = [k for k, p_ in enumerate(POOL_SRC) if p_.startswith(("[", "<<", "'")) and p_ not in ("[]", "<<>>", "''", "<<<>>>")][:7]
+    SMALLINT_IDX = [k for k, p_ in enumerate(POOL_SRC) if p_ in ("0", "1", "-1")][:2]
     try:
         core.use_repo()
         for legacy in (False, True):
@@ -431,6 +433,10 @@ def run(ctx):
                         items.append((f"{fexpr}(a, b)", {"a": i, "b": j}, allowed1, False))
                 for _ in range(10 if ctx.thorough else 3):
                     items.append((f"{fexpr}(a, b, c)", {"a": rng.randrange(n), "b": rng.randrange(n), "c": rng.randrange(n)}, allowed1, False))
+                # three-argument calls of the shape (container, small int, anything): the shape of positional updates (substitute, insert_at, …)
+                for i in CONTAINER_IDX:
+                    for j in SMALLINT_IDX:
+                        items.append((f"{fexpr}(a, b, c)", {"a": i, "b": j, "c": rng.randrange(n)}, allowed1, False))
             if legacy and not ctx.thorough:
                 items = rng.sample(items, len(items) // 4)
             for i in range(0, len(items), 1500):
